@@ -248,6 +248,33 @@ def run(ctx, report):
     if n_homonym < 4:
         raise AnalysisError('expected the movsd/cmpsd homonym forms, examined %d' % n_homonym)
 
+    # parse_mnemo: the rewrite that reads 'push WORD PTR 4' as an immediate must leave memory operands alone
+    pm = arch.method('x86_mn', 'parse_mnemo')
+    push_ifs = [st for st in pm.body if isinstance(st, ast.If) and "name == 'push'" in u(st.test)]
+    if not push_ifs:
+        R3.ok('push-word-imm:absent', sample='parse_mnemo has no push special case', nontrivial=False)
+    from ..consteval import Native
+    imm_fn = Native(lambda d: not d.get(afs.ad) and (afs.imm in d or afs.symb in d))
+    for st in push_ifs:
+        for label, opnd, want_mem in (('memory [eax]', {0: 1, afs.size: afs.u16, afs.ad: afs.u16}, True),
+                                      ('memory [ebx+4]', {3: 1, afs.imm: 4, afs.size: afs.u16, afs.ad: afs.u16}, True),
+                                      ('sized immediate 4', {afs.imm: 4, afs.size: afs.u16, afs.ad: afs.u16}, False),
+                                      ('register ax', {0: 1, afs.size: afs.u16, afs.ad: False}, False)):
+            scope = {'name': 'push', 'args': [dict(opnd)], 'x86_afs': afs, 'is_imm': imm_fn}
+            ev_ = Evaluator(dict(E, x86_afs=afs))
+            ev_.env.update(scope)
+            try:
+                ev_.exec_stmts([st], ev_.env)
+            except NotConst as e:
+                raise AnalysisError('parse_mnemo: push special case not evaluable: %s' % e)
+            is_mem = bool(ev_.env['args'][0].get(afs.ad))
+            inst = 'push-word:%s' % label
+            if is_mem == want_mem:
+                R3.ok(inst, sample='push WORD PTR with %s stays %s' % (label, 'a memory operand' if want_mem else 'a non-memory operand'))
+            else:
+                R3.violation(inst, 'push-word:%s' % label, 'parse_mnemo turns the 16-bit push operand "%s" into %s' % (label, 'a memory operand' if is_mem else 'a non-memory operand (its base register is then pushed)'),
+                             where(arch, st), witness="asm('push WORD PTR [eax]') == [66 50]")
+
     R4 = report.rule('C03.D4', 'the operand renderer emits displacement, symbol and segment exactly once on every path', floor=6)
     from ..linear import Linear
     branches = {}
@@ -280,6 +307,7 @@ def run(ctx, report):
 
 
 MUTANTS = [
+    ('push-word-any', 'miasmx/arch/ia32_arch.py', "        if name == 'push' and args[0][x86_afs.size] == x86_afs.u16 \\\n                and not [k for k in args[0] if type(k) == int]:", "        if name == 'push' and args[0][x86_afs.size] == x86_afs.u16:", 'C03.D3'),
     ('movsd-store-string', 'miasmx/arch/ia32_arch.py', "                and args[0][x86_afs.size] != x86_afs.xmm \\\n                and args[1][x86_afs.size] != x86_afs.xmm:", "                and args[0][x86_afs.size] != x86_afs.xmm:", 'C03.D3'),
     ('disp-twice', 'miasmx/arch/ia32_arch.py', "                        address[0] = add_imm_to_string(\"\", immediate, imm_size)\n                        immediate = 0\n", "                        address[0] = add_imm_to_string(\"\", immediate, imm_size)\n", 'C03.D4'),
     ('symbol-twice', 'miasmx/arch/ia32_arch.py', "                address += ' + ' + symbol\n                symbol = ''\n", "                address += ' + ' + symbol\n", 'C03.D4'),
